@@ -1,75 +1,91 @@
-(* C19: the statement-type -> required-privileges table the model and the black-box matrix rely on. Hand-frozen copy
-   (one row per RequiredPrivileges method of lib/util/lifted/influx/influxql); Props.required_privileges_match proves it equal to
-   the table translated from the source in every run, so a requirement weakened in the source breaks that obligation. *)
+(* C19: the statement-type -> required-privileges table and the rwuser statement cases the model and the black-box matrix
+   rely on. Hand-frozen copy (one row per RequiredPrivileges method of lib/util/lifted/influx/influxql: Admin flag, Rwuser flag,
+   database expression, privilege, conditions, delegations; one row per arm of AuthorizeQueryForRwUser);
+   Props.required_privileges_match / rwuser_rules_match prove them equal to the tables translated from the source in
+   every run, so a requirement weakened in the source breaks that obligation. *)
 From Coq Require Import String List Bool.
 From OG Require Import C19.Model.
 Import ListNotations.
 Open Scope string_scope.
 
 Definition model_privs : list stmt_priv := [
-  mk_stmt_priv "AlterRetentionPolicyStatement" true [mk_pentry true "" "AllPrivileges" ""] [];
-  mk_stmt_priv "AlterShardKeyStatement" true [mk_pentry true "" "AllPrivileges" ""] [];
-  mk_stmt_priv "CreateContinuousQueryStatement" false [mk_pentry false "s.Database" "ReadPrivilege" ""; mk_pentry false "assign ep[0].Privilege" "ReadPrivilege" "s.Source.Target.Measurement.Database != """""; mk_pentry false "s.Source.Target.Measurement.Database" "WritePrivilege" "s.Source.Target.Measurement.Database != """""] [];
-  mk_stmt_priv "CreateDatabaseStatement" true [mk_pentry true "" "AllPrivileges" ""] [];
-  mk_stmt_priv "CreateDownSampleStatement" true [mk_pentry true "" "AllPrivileges" ""] [];
-  mk_stmt_priv "CreateMeasurementStatement" true [mk_pentry true "" "AllPrivileges" ""] [];
-  mk_stmt_priv "CreateRetentionPolicyStatement" true [mk_pentry true "" "AllPrivileges" ""] [];
-  mk_stmt_priv "CreateStreamStatement" true [mk_pentry true "" "AllPrivileges" ""] [];
-  mk_stmt_priv "CreateSubscriptionStatement" true [mk_pentry true "" "AllPrivileges" ""] [];
-  mk_stmt_priv "CreateUserStatement" true [mk_pentry true "" "AllPrivileges" ""] [];
-  mk_stmt_priv "DeleteSeriesStatement" true [mk_pentry false "" "WritePrivilege" ""] [];
-  mk_stmt_priv "DeleteStatement" true [mk_pentry false "" "WritePrivilege" ""] [];
-  mk_stmt_priv "DropContinuousQueryStatement" true [mk_pentry false "s.Database" "WritePrivilege" ""] [];
-  mk_stmt_priv "DropDatabaseStatement" true [mk_pentry true "" "AllPrivileges" ""] [];
-  mk_stmt_priv "DropDownSampleStatement" true [mk_pentry true "" "AllPrivileges" ""] [];
-  mk_stmt_priv "DropMeasurementStatement" true [mk_pentry true "" "AllPrivileges" ""] [];
-  mk_stmt_priv "DropRetentionPolicyStatement" true [mk_pentry false "s.Database" "WritePrivilege" ""] [];
-  mk_stmt_priv "DropSeriesStatement" true [mk_pentry false "" "WritePrivilege" ""] [];
-  mk_stmt_priv "DropShardStatement" true [mk_pentry true "" "AllPrivileges" ""] [];
-  mk_stmt_priv "DropStreamsStatement" true [mk_pentry true "" "AllPrivileges" ""] [];
-  mk_stmt_priv "DropSubscriptionStatement" true [mk_pentry true "" "AllPrivileges" ""] [];
-  mk_stmt_priv "DropUserStatement" true [mk_pentry true "" "AllPrivileges" ""] [];
-  mk_stmt_priv "EndPrepareSnapshotStatement" true [mk_pentry false "" "NoPrivileges" ""] [];
+  mk_stmt_priv "AlterRetentionPolicyStatement" true [mk_pentry true true "" "AllPrivileges" ""] [];
+  mk_stmt_priv "AlterShardKeyStatement" true [mk_pentry true true "" "AllPrivileges" ""] [];
+  mk_stmt_priv "CreateContinuousQueryStatement" false [mk_pentry false true "s.Database" "ReadPrivilege" ""; mk_pentry false false "assign ep[0].Privilege" "ReadPrivilege" "s.Source.Target.Measurement.Database != """""; mk_pentry false true "s.Source.Target.Measurement.Database" "WritePrivilege" "s.Source.Target.Measurement.Database != """""] [];
+  mk_stmt_priv "CreateDatabaseStatement" true [mk_pentry true true "" "AllPrivileges" ""] [];
+  mk_stmt_priv "CreateDownSampleStatement" true [mk_pentry true true "" "AllPrivileges" ""] [];
+  mk_stmt_priv "CreateMeasurementStatement" true [mk_pentry true true "" "AllPrivileges" ""] [];
+  mk_stmt_priv "CreateRetentionPolicyStatement" true [mk_pentry true true "" "AllPrivileges" ""] [];
+  mk_stmt_priv "CreateStreamStatement" true [mk_pentry true true "" "AllPrivileges" ""] [];
+  mk_stmt_priv "CreateSubscriptionStatement" true [mk_pentry true true "" "AllPrivileges" ""] [];
+  mk_stmt_priv "CreateUserStatement" true [mk_pentry true false "" "AllPrivileges" ""] [];
+  mk_stmt_priv "DeleteSeriesStatement" true [mk_pentry false true "" "WritePrivilege" ""] [];
+  mk_stmt_priv "DeleteStatement" true [mk_pentry false true "" "WritePrivilege" ""] [];
+  mk_stmt_priv "DropContinuousQueryStatement" true [mk_pentry false true "s.Database" "WritePrivilege" ""] [];
+  mk_stmt_priv "DropDatabaseStatement" true [mk_pentry true true "" "AllPrivileges" ""] [];
+  mk_stmt_priv "DropDownSampleStatement" true [mk_pentry true true "" "AllPrivileges" ""] [];
+  mk_stmt_priv "DropMeasurementStatement" true [mk_pentry true true "" "AllPrivileges" ""] [];
+  mk_stmt_priv "DropRetentionPolicyStatement" true [mk_pentry false true "s.Database" "WritePrivilege" ""] [];
+  mk_stmt_priv "DropSeriesStatement" true [mk_pentry false true "" "WritePrivilege" ""] [];
+  mk_stmt_priv "DropShardStatement" true [mk_pentry true true "" "AllPrivileges" ""] [];
+  mk_stmt_priv "DropStreamsStatement" true [mk_pentry true true "" "AllPrivileges" ""] [];
+  mk_stmt_priv "DropSubscriptionStatement" true [mk_pentry true true "" "AllPrivileges" ""] [];
+  mk_stmt_priv "DropUserStatement" true [mk_pentry true false "" "AllPrivileges" ""] [];
+  mk_stmt_priv "EndPrepareSnapshotStatement" true [mk_pentry false true "" "NoPrivileges" ""] [];
   mk_stmt_priv "ExplainStatement" false [] ["e.Statement.RequiredPrivileges"];
-  mk_stmt_priv "GetRuntimeInfoStatement" true [mk_pentry false "" "NoPrivileges" ""] [];
-  mk_stmt_priv "GrantAdminStatement" true [mk_pentry true "" "AllPrivileges" ""] [];
-  mk_stmt_priv "GrantStatement" true [mk_pentry true "" "AllPrivileges" ""] [];
-  mk_stmt_priv "GraphStatement" true [mk_pentry true "" "AllPrivileges" ""] [];
-  mk_stmt_priv "KillQueryStatement" true [mk_pentry true "" "AllPrivileges" ""] [];
-  mk_stmt_priv "LogPipeStatement" true [mk_pentry true "" "AllPrivileges" ""] [];
-  mk_stmt_priv "PrepareSnapshotStatement" true [mk_pentry false "" "NoPrivileges" ""] [];
-  mk_stmt_priv "RevokeAdminStatement" true [mk_pentry true "" "AllPrivileges" ""] [];
-  mk_stmt_priv "RevokeStatement" true [mk_pentry true "" "AllPrivileges" ""] [];
-  mk_stmt_priv "SelectStatement" false [mk_pentry false "s.Target.Measurement.Database" "WritePrivilege" "s.Target != nil"] ["s.Sources.RequiredPrivileges"];
-  mk_stmt_priv "SetConfigStatement" true [mk_pentry true "" "AllPrivileges" ""] [];
-  mk_stmt_priv "SetPasswordUserStatement" true [mk_pentry true "" "AllPrivileges" ""] [];
-  mk_stmt_priv "ShowClusterStatement" true [mk_pentry true "" "AllPrivileges" ""] [];
-  mk_stmt_priv "ShowConfigsStatement" true [mk_pentry true "" "AllPrivileges" ""] [];
-  mk_stmt_priv "ShowContinuousQueriesStatement" true [mk_pentry false "" "ReadPrivilege" ""] [];
-  mk_stmt_priv "ShowDatabasesStatement" true [mk_pentry false "" "NoPrivileges" ""] [];
-  mk_stmt_priv "ShowDiagnosticsStatement" true [mk_pentry true "" "AllPrivileges" ""] [];
-  mk_stmt_priv "ShowDownSampleStatement" true [mk_pentry true "" "AllPrivileges" ""] [];
+  mk_stmt_priv "GetRuntimeInfoStatement" true [mk_pentry false true "" "NoPrivileges" ""] [];
+  mk_stmt_priv "GrantAdminStatement" true [mk_pentry true false "" "AllPrivileges" ""] [];
+  mk_stmt_priv "GrantStatement" true [mk_pentry true false "" "AllPrivileges" ""] [];
+  mk_stmt_priv "GraphStatement" true [mk_pentry true true "" "AllPrivileges" ""] [];
+  mk_stmt_priv "KillQueryStatement" true [mk_pentry true false "" "AllPrivileges" ""] [];
+  mk_stmt_priv "LogPipeStatement" true [mk_pentry true true "" "AllPrivileges" ""] [];
+  mk_stmt_priv "PrepareSnapshotStatement" true [mk_pentry false true "" "NoPrivileges" ""] [];
+  mk_stmt_priv "RevokeAdminStatement" true [mk_pentry true false "" "AllPrivileges" ""] [];
+  mk_stmt_priv "RevokeStatement" true [mk_pentry true false "" "AllPrivileges" ""] [];
+  mk_stmt_priv "SelectStatement" false [mk_pentry false true "s.Target.Measurement.Database" "WritePrivilege" "s.Target != nil"] ["s.Sources.RequiredPrivileges"];
+  mk_stmt_priv "SetConfigStatement" true [mk_pentry true true "" "AllPrivileges" ""] [];
+  mk_stmt_priv "SetPasswordUserStatement" true [mk_pentry true false "" "AllPrivileges" ""] [];
+  mk_stmt_priv "ShowClusterStatement" true [mk_pentry true true "" "AllPrivileges" ""] [];
+  mk_stmt_priv "ShowConfigsStatement" true [mk_pentry true true "" "AllPrivileges" ""] [];
+  mk_stmt_priv "ShowContinuousQueriesStatement" true [mk_pentry false true "" "ReadPrivilege" ""] [];
+  mk_stmt_priv "ShowDatabasesStatement" true [mk_pentry false true "" "NoPrivileges" ""] [];
+  mk_stmt_priv "ShowDiagnosticsStatement" true [mk_pentry true false "" "AllPrivileges" ""] [];
+  mk_stmt_priv "ShowDownSampleStatement" true [mk_pentry true true "" "AllPrivileges" ""] [];
   mk_stmt_priv "ShowFieldKeyCardinalityStatement" false [] ["s.Sources.RequiredPrivileges"];
-  mk_stmt_priv "ShowFieldKeysStatement" true [mk_pentry false "s.Database" "ReadPrivilege" ""] [];
-  mk_stmt_priv "ShowGrantsForUserStatement" true [mk_pentry true "" "AllPrivileges" ""] [];
-  mk_stmt_priv "ShowMeasurementCardinalityStatement" false [mk_pentry false "s.Database" "ReadPrivilege" "!s.Exact"] ["s.Sources.RequiredPrivileges"];
-  mk_stmt_priv "ShowMeasurementKeysStatement" true [mk_pentry true "" "AllPrivileges" ""] [];
-  mk_stmt_priv "ShowMeasurementsDetailStatement" true [mk_pentry false "s.Database" "ReadPrivilege" ""] [];
-  mk_stmt_priv "ShowMeasurementsStatement" true [mk_pentry false "s.Database" "ReadPrivilege" ""] [];
-  mk_stmt_priv "ShowQueriesStatement" true [mk_pentry false "" "ReadPrivilege" ""] [];
-  mk_stmt_priv "ShowRetentionPoliciesStatement" true [mk_pentry false "s.Database" "ReadPrivilege" ""] [];
-  mk_stmt_priv "ShowSeriesCardinalityStatement" false [mk_pentry false "s.Database" "ReadPrivilege" "!s.Exact"] ["s.Sources.RequiredPrivileges"];
-  mk_stmt_priv "ShowSeriesStatement" true [mk_pentry false "s.Database" "ReadPrivilege" ""] [];
-  mk_stmt_priv "ShowShardGroupsStatement" true [mk_pentry true "" "AllPrivileges" ""] [];
-  mk_stmt_priv "ShowShardsStatement" true [mk_pentry true "" "AllPrivileges" ""] [];
-  mk_stmt_priv "ShowStatsStatement" true [mk_pentry true "" "AllPrivileges" ""] [];
-  mk_stmt_priv "ShowStreamsStatement" true [mk_pentry true "" "AllPrivileges" ""] [];
-  mk_stmt_priv "ShowSubscriptionsStatement" true [mk_pentry true "" "AllPrivileges" ""] [];
+  mk_stmt_priv "ShowFieldKeysStatement" true [mk_pentry false true "s.Database" "ReadPrivilege" ""] [];
+  mk_stmt_priv "ShowGrantsForUserStatement" true [mk_pentry true false "" "AllPrivileges" ""] [];
+  mk_stmt_priv "ShowMeasurementCardinalityStatement" false [mk_pentry false true "s.Database" "ReadPrivilege" "!s.Exact"] ["s.Sources.RequiredPrivileges"];
+  mk_stmt_priv "ShowMeasurementKeysStatement" true [mk_pentry true true "" "AllPrivileges" ""] [];
+  mk_stmt_priv "ShowMeasurementsDetailStatement" true [mk_pentry false true "s.Database" "ReadPrivilege" ""] [];
+  mk_stmt_priv "ShowMeasurementsStatement" true [mk_pentry false true "s.Database" "ReadPrivilege" ""] [];
+  mk_stmt_priv "ShowQueriesStatement" true [mk_pentry false true "" "ReadPrivilege" ""] [];
+  mk_stmt_priv "ShowRetentionPoliciesStatement" true [mk_pentry false true "s.Database" "ReadPrivilege" ""] [];
+  mk_stmt_priv "ShowSeriesCardinalityStatement" false [mk_pentry false true "s.Database" "ReadPrivilege" "!s.Exact"] ["s.Sources.RequiredPrivileges"];
+  mk_stmt_priv "ShowSeriesStatement" true [mk_pentry false true "s.Database" "ReadPrivilege" ""] [];
+  mk_stmt_priv "ShowShardGroupsStatement" true [mk_pentry true true "" "AllPrivileges" ""] [];
+  mk_stmt_priv "ShowShardsStatement" true [mk_pentry true true "" "AllPrivileges" ""] [];
+  mk_stmt_priv "ShowStatsStatement" true [mk_pentry true true "" "AllPrivileges" ""] [];
+  mk_stmt_priv "ShowStreamsStatement" true [mk_pentry true true "" "AllPrivileges" ""] [];
+  mk_stmt_priv "ShowSubscriptionsStatement" true [mk_pentry true true "" "AllPrivileges" ""] [];
   mk_stmt_priv "ShowTagKeyCardinalityStatement" false [] ["s.Sources.RequiredPrivileges"];
-  mk_stmt_priv "ShowTagKeysStatement" true [mk_pentry false "s.Database" "ReadPrivilege" ""] [];
-  mk_stmt_priv "ShowTagValuesCardinalityStatement" false [mk_pentry false "assign p.Name" "s.Database" "p.Name == """""] ["s.Sources.RequiredPrivileges"];
-  mk_stmt_priv "ShowTagValuesStatement" true [mk_pentry false "s.Database" "ReadPrivilege" ""] [];
-  mk_stmt_priv "ShowUsersStatement" true [mk_pentry true "" "AllPrivileges" ""] [];
-  mk_stmt_priv "Sources" false [mk_pentry false "source.Database" "ReadPrivilege" ""] ["source.Statement.RequiredPrivileges"; "sources.RequiredPrivileges"; "sources.RequiredPrivileges"];
-  mk_stmt_priv "WithSelectStatement" true [mk_pentry true "" "AllPrivileges" ""] []
+  mk_stmt_priv "ShowTagKeysStatement" true [mk_pentry false true "s.Database" "ReadPrivilege" ""] [];
+  mk_stmt_priv "ShowTagValuesCardinalityStatement" false [mk_pentry false false "assign p.Name" "s.Database" "p.Name == """""] ["s.Sources.RequiredPrivileges"];
+  mk_stmt_priv "ShowTagValuesStatement" true [mk_pentry false true "s.Database" "ReadPrivilege" ""] [];
+  mk_stmt_priv "ShowUsersStatement" true [mk_pentry true false "" "AllPrivileges" ""] [];
+  mk_stmt_priv "Sources" false [mk_pentry false true "source.Database" "ReadPrivilege" ""] ["source.Statement.RequiredPrivileges"; "sources.RequiredPrivileges"; "sources.RequiredPrivileges"];
+  mk_stmt_priv "WithSelectStatement" true [mk_pentry true true "" "AllPrivileges" ""] []
+].
+
+(* the statement cases of AuthorizeQueryForRwUser (lib/util/lifted/influx/meta/authorizer.go) *)
+Definition model_rw_rules : list rwrule := [
+  mk_rwrule "ShowUsersStatement" "continue";
+  mk_rwrule "CreateUserStatement" "if stmtType.Admin == true { set stmtType.Admin = false }; continue";
+  mk_rwrule "DropUserStatement" "if stmtType.Name != ""rwuser"" { continue }";
+  mk_rwrule "SetPasswordUserStatement" "if u.Name != ""rwuser"" && stmtType.Name == ""rwuser"" { refuse }; continue";
+  mk_rwrule "GrantStatement" "continue";
+  mk_rwrule "RevokeStatement" "continue";
+  mk_rwrule "ShowGrantsForUserStatement" "continue";
+  mk_rwrule "DropDatabaseStatement" "if stmtType.Name == ""_internal"" { refuse }";
+  mk_rwrule "<default>" "";
+  mk_rwrule "<tail>" "set privs, err := stmt.RequiredPrivileges(); if err != nil { return return err }; range privs { if !p.Rwuser { refuse } }"
 ].
